@@ -1046,12 +1046,7 @@ impl Probe {
          */
         let insert_position = self
             .records
-            .binary_search_by(
-                |existing| match existing.get_class().cmp(&record.get_class()) {
-                    std::cmp::Ordering::Equal => existing.get_type().cmp(&record.get_type()),
-                    other => other,
-                },
-            )
+            .binary_search_by(|existing| existing.compare(record.as_ref()))
             .unwrap_or_else(|pos| pos);
 
         self.records.insert(insert_position, record);
@@ -1068,11 +1063,12 @@ impl Probe {
             return;
         }
 
-        let incoming: Vec<_> = msg
+        let mut incoming: Vec<_> = msg
             .authorities()
             .iter()
             .filter(|r| r.get_name() == probe_name)
             .collect();
+        incoming.sort_by(|a, b| a.compare(b.as_ref()));
         /*
         RFC 6762 section 8.2: https://datatracker.ietf.org/doc/html/rfc6762#section-8.2
         ...
